@@ -16,51 +16,51 @@ CHECKS = {
  "C01": dict(engine="confspace", cat="model_checking", ref="§2.1, §3 C01",
    technique="bounded-exhaustive execution of the real code over all configurations x the complete impulse basis, against a double-double reference DFT; exact finite-field execution of the generic code with a linearity/taint monitor",
    text="Every (planner, type, direction, entry point, n) in the stated range is executed on every vector of a complete real basis (2n impulses) plus structured vectors and compared with a naive reference DFT; the portable generic code is additionally executed over a prime field where the DFT identity is checked as an equality and a tag monitor proves the executed circuit linear and data-oblivious, which is what turns 'basis' into 'all inputs'.",
-   note="Trusted: the reference DFT (own double-double sincos, self-checked), hook H1 (twiddle context) for the field image, the ring homomorphism argument of DESIGN §2.1; SIMD float code is assumed data-oblivious (backed by dense vectors). Lengths above the stated bounds are not covered."),
+   note="Trusted: the reference DFT (own double-double sincos, self-checked), hook H1 (twiddle context) for the field image, the ring homomorphism argument of DESIGN §2.1; SIMD float code is assumed data-oblivious (backed by dense vectors). Lengths above the stated bounds are not covered. Added in session 3: one length of every plan class just above 2^16 and towards 2^20, and lengths in the millions (2^21, 2^22, 3*2^20, 5*2^18, 3^13, 5^9, 2*3^13) against directly evaluated spectra."),
  "C02": dict(engine="confspace", cat="model_checking", ref="§2.1, §3 C02",
    technique="bounded-exhaustive execution over all configurations x a fixed finite input alphabet, error measured against a double-double naive DFT",
    text="For every configuration and n in range, every vector of the STRUCT alphabet and the impulse basis is transformed by the real code and the relative L2 error against a double-double reference is compared with 16*eps*log2(2n). Exhaustive over configurations and over the stated alphabet, not over all inputs (rounding error is not linear in the input).",
-   note="Trusted: the double-double reference. Closed-form spectra above the O(n^2) range add one eps of slack for the single rounding of the input."),
+   note="Trusted: the double-double reference. Closed-form spectra above the O(n^2) range add one eps of slack for the single rounding of the input. The alphabet contains non-representable constants and a DC-dominant vector (summation paths), and the lengths beyond 2^16 / in the millions of C01. A violation found this way on the unchanged tree (n=786433, constant input) was repaired in /repo (fix: e28b327)."),
  "C03": dict(engine="confspace", cat="model_checking", ref="§2.1 memory monitor, §3 C03",
-   technique="bounded-exhaustive enumeration of call shapes executed in guard-paged buffers inside worker processes (release and debug-assertion builds); fatal signals attributed to the executing case",
-   text="Every configuration x n x entry point x chunk count with exactly the advertised scratch, and the ill-shaped variants of each call, is executed with every caller buffer placed flush against a PROT_NONE page (both ends). Any access outside the caller's slices faults and is reported with the case; the debug-assertion flavour adds the crate's own index assertions and std's unsafe-precondition checks.",
-   note="Trusted: the kernel's page protection. Not seen: over-reads that stay inside the same caller buffer (not violations), reads past the instance's own tables except through the debug-flavour index checks."),
+   technique="bounded-exhaustive enumeration of call shapes executed in guard-paged buffers inside worker processes (release and debug-assertion builds, three buffer placements incl. the least aligned one); fatal signals attributed to the executing case; second monitor: the reduced shape set under valgrind memcheck (heap red zones around caller buffers AND the instance's own tables)",
+   text="Every configuration x n x entry point x chunk count with exactly the advertised scratch, and the ill-shaped variants of each call, is executed with every caller buffer placed flush against a PROT_NONE page (both ends) and once at the least aligned address the element type permits, plus calls with thousands of chunks / several MiB per buffer. Any access outside the caller's slices faults and is reported with the case; the debug-assertion flavour adds the crate's own index assertions and std's unsafe-precondition checks.",
+   note="Trusted: the kernel's page protection. Not seen: over-reads that stay inside the same caller buffer (not violations), reads past the instance's own tables outside the memcheck pass's reduced length set and the debug-flavour index checks."),
  "C04": dict(engine="confspace", cat="model_checking", ref="§3 C04",
    technique="exhaustive enumeration of lengths: construction for every n up to the bound on all planners, plan-only (hook H4) for every n < 2^20 / 2^22 with plan reports parsed and multiplied out",
    text="Every planner x type x direction x n up to N is asked to plan on a fresh planner and the result interrogated; every n below 2^20 (2^22 thorough) is planned without construction and the reported plan is parsed, checked to multiply out to n, and followed into Rader/Bluestein sub-plans.",
-   note="Trusted: hook H4 reports the plan construction would use (bound to the code on the constructed range). n above 2^22 not covered."),
+   note="Trusted: hook H4 reports the plan construction would use (bound to the code on the constructed range). n above 2^22 not covered except the huge re-plan-after-drop histories (2^21, 2^22; thorough up to 2^24)."),
  "C05": dict(engine="confspace", cat="model_checking", ref="§3 C05",
    technique="exhaustive enumeration of lengths with an operation-counting element type (exact counts, three inputs each) and the construction event log",
    text="The portable planner is instantiated with a counting element type; for every n in range and entry point the exact number of +,-,* for one chunk is measured on three inputs (must be equal) and compared with 64 n log2 n; every planner's construction log must contain no naive DFT above 32 and every advertised scratch length must be <= 12n+64.",
-   note="Operation counts are those of the portable generic code. The thorough-tier cost-model extension of DESIGN §3 C05 is not built; plan-only recipes up to 2^22 are scanned for naive nodes instead."),
+   note="Operation counts are those of the portable generic code. The thorough-tier cost-model extension of DESIGN §3 C05 is not built; plan-only recipes up to 2^22 are scanned for naive nodes instead, and the first prime of every class in every octave up to 2^20 / 2^22 is constructed for the scratch clause."),
  "C06": dict(engine="confspace", cat="model_checking", ref="§3 C06",
    technique="bounded-exhaustive execution of round trips through both directions obtained from one planner (both request orders), oracle-free; exact in a prime field for the generic code",
    text="For every planner, type, n in range, both orders of requesting the two directions from one planner, entry point and input of a fixed alphabet: inverse(forward(x)) and forward(inverse(x)) against n*x and inverse(x) against conj(forward(conj(x))), with allowances derived from C02; as equalities in F_p for the portable code.",
    note="Allowances are algebraic consequences of C02 (never stricter than the properties)."),
  "C07": dict(engine="confspace", cat="model_checking", ref="§3 C07",
    technique="bounded-exhaustive enumeration of chunk counts x positions x fillings of the other chunks, bitwise oracle; poison-tagged neighbours in a prime field",
-   text="For every configuration, n, entry point, k in 1..8 and chunk position, the chunk inside a k-chunk buffer is compared with the same chunk alone (2B) and must be bit-identical under four alternative fillings of all other chunks (dense, NaN, Inf, huge).",
+   text="For every configuration, n, entry point, k in 1..8 and chunk position, the chunk inside a k-chunk buffer is compared with the same chunk alone (2B) and must be bit-identical under four alternative fillings of all other chunks (dense, NaN, Inf, huge); with scratch lengths between the advertised one and the buffer size (holding 2..k-1 chunks) every chunk must come out bit-identical to the exact-scratch call.",
    note="'Does not depend on' is decided bitwise."),
  "C08": dict(engine="confspace", cat="model_checking", ref="§3 C08",
    technique="full product of scratch lengths x initial scratch contents x initial output contents per (configuration, n, entry), bitwise oracle; poison-tag taint in a prime field",
-   text="For every configuration, n, explicit-scratch entry point and k in {1,2}: 4 scratch lengths x 6 scratch contents x 6 output contents must all complete and give bit-identical finite outputs; in F_p poison-tagged scratch/output must never reach a result.",
+   text="For every configuration, n, explicit-scratch entry point and k in {1,2,3}: 5 scratch lengths x 6 scratch contents x 6 output contents must all complete and give bit-identical finite outputs; in F_p poison-tagged scratch/output must never reach a result.",
    note="Float layer relies on NaN/Inf propagation; the exact layer's tags cover laundering in the portable code only."),
  "C09": dict(engine="confspace", cat="model_checking", ref="§3 C09",
    technique="full product of data / output / scratch length deviations per (configuration, n, entry) against the documented contract as a predicate",
    text="About 200 call shapes per instance and entry point are executed; must-succeed shapes must return with every chunk transformed, must-panic shapes must unwind.",
    note="Empty data and n = 0 are classified 'unspecified' and recorded as an observation."),
  "C10": dict(engine="planfsm", cat="model_checking", ref="§2.2, §3 C10",
-   technique="explicit-state breadth-first search over the real planner's reachable cache states (request histories over a closed pool), invariants I1-I7 on every transition",
+   technique="explicit-state breadth-first search over the real planner's reachable cache states: (a) all request histories over a closed pool to a fixed depth, (b) sub-pools explored to closure (complete reachable state space), (c) long sweep histories; invariants I1-I7 on every transition",
    text="States are planner caches, represented by request histories and materialised by replay on a fresh planner; every transition calls the real plan_fft; states are deduplicated by a canonical form (cache keys + behaviour hash); invariants cover C01/C02/C06/C08 of the returned transform, two planners fed the same history, and survival after drop(planner).",
-   note="Requests outside the closed pool are not covered; depth bound reported per search; a run in which the AVX cache-rewrite path is never taken is reported as vacuous (exit 2)."),
+   note="Requests outside the closed pool are not covered; depth bound and closure reported per search; a run in which the AVX cache-rewrite path is never taken is reported as vacuous (exit 2)."),
  "C11": dict(engine="sched", cat="model_checking", ref="§2.3, §3 C11",
-   technique="stateless schedule exploration with iterative preemption bounding on one shared transform instance (op-granular and chunk-granular scheduling points), all call histories of length <= 3, Send/Sync probe crate",
-   text="2-3 threads call one shared instance through different entry points on private buffers; every interleaving up to the completed preemption bound (reported per harness) must give bit-identical outputs to the same call made alone; all 4368 call sequences of length <= 3 over a 16-letter alphabet must be bit-identical to a first call on a fresh instance; a probe crate carries the Send/Sync obligations.",
+   technique="stateless schedule exploration with iterative preemption bounding on one shared transform instance (op-granular and chunk-granular scheduling points), all call histories of length <= 3, per-thread floating-point-environment monitor, Send/Sync probe crate",
+   text="2-3 threads call one shared instance through different entry points on private buffers; every interleaving up to the completed preemption bound (reported per harness) must give bit-identical outputs to the same call made alone; all 4368 call sequences of length <= 3 over a 16-letter alphabet must be bit-identical to a first call on a fresh instance; every call is bracketed by a comparison of the thread's MXCSR control bits (state a call leaves behind in the thread); a probe crate carries the Send/Sync obligations.",
    note="State written and read with no scheduling point in between is invisible to the scheduler (source-scan note only). Memory-model effects are not modelled."),
  "C12": dict(engine="confspace", cat="model_checking", ref="§3 C12",
-   technique="exhaustive enumeration of expression trees (depth <= 2, stated leaf sets) over the public constructors, each checked exactly in a prime field and in f32/f64 inside guard-paged buffers in worker processes",
+   technique="exhaustive enumeration of expression trees (depth <= 2, stated leaf sets) over the public constructors, each checked exactly in a prime field and in f32/f64 inside guard-paged buffers in worker processes; large instances (> 2^16 points) of every constructor; composites over an adversarial safe Fft implementation under the memory monitor",
    text="Every tree of the stated finite set that lies inside the constructors' documented preconditions is built and must not panic; C01/C07/C08 are decided exactly in F_p, C01/C03/C08/C09 in floats inside guard-paged buffers, release and debug-assertion builds.",
-   note="The precondition model is hand-written from the documentation and the constructors' assert messages."),
+   note="The precondition model is hand-written from the documentation and the constructors' assert messages. Adversarial leaves (a safe user-written Fft whose len()/scratch answers change after construction) have no correctness oracle: only C03 (no fault, no unsafe-precondition abort) is decided for them."),
  "C13": dict(engine="confspace", cat="model_checking", ref="§3 C13",
    technique="full cross of 4 cargo feature builds x 4 emulated CPU levels (detection mask, hook H3): constructor Ok/Err against a model, then the C01/C02/C03/C04 sweeps under each configuration",
    text="All 16 (feature set, CPU level) configurations are run: dedicated planners must return Err exactly when their instruction set is unavailable or compiled out, the automatic planner must construct and pick the best back-end, and the float, construction and guard-page sweeps must hold in each.",
@@ -68,7 +68,7 @@ CHECKS = {
  "C14": dict(engine="confspace", cat="model_checking", ref="§3 C14",
    technique="exhaustive enumeration over instrumented element types: prime field (exact), double-double, bit-compatible newtypes, counting type; all n in range",
    text="For element types other than f32/f64 every SIMD planner must decline under every CPU level and the automatic planner must fall back to portable code; over a prime field the planned transform equals the DFT exactly for every n in range (complete basis) and uses no non-ring operation; newtypes of f32/f64 must be bit-identical to the scalar planner; double-double must reach double-double accuracy.",
-   note="Constants reach a generic type only through from_f64/from_usize; an unknown new constant makes the exact layer 'undecided', never failing."),
+   note="Constants reach a generic type only through from_f64/from_usize; an unknown new constant makes the exact layer 'undecided', never failing. The field type's zero is not the all-zero byte pattern (tag 0 is invalid), so values fabricated from raw memory are seen."),
  "C15": dict(engine="confspace", cat="model_checking", ref="§2.1 memory monitor, §3 C15",
    technique="bounded-exhaustive enumeration of call shapes with the input in a permanently read-only mapping (stores fault) and a bitwise snapshot comparison after return or unwind",
    text="For every configuration, n, chunk count 1..8 and the full shape product (including every shape ending in a panic), process_immutable_with_scratch receives its input through a read-only view of doubly-mapped memory; any store faults, and the bits are compared with a snapshot afterwards.",
